@@ -43,6 +43,29 @@ const compareJS = `(function(a, b){
   return '';
 })`
 
+type rejectEnv struct {
+	vm     *otto.Otto
+	before otto.Value
+	hits   int
+	src    string
+	uses   int
+}
+
+var theEnv *rejectEnv
+
+func newRejectEnv() (*rejectEnv, error) {
+	e := &rejectEnv{vm: otto.New()}
+	if err := e.vm.Set("hit", func(call otto.FunctionCall) otto.Value { e.hits++; return otto.Value{} }); err != nil {
+		return nil, err
+	}
+	if err := e.vm.Set("getsrc", func(call otto.FunctionCall) otto.Value { v, _ := otto.ToValue(e.src); return v }); err != nil {
+		return nil, err
+	}
+	var err error
+	e.before, err = e.vm.Run(snapshotJS)
+	return e, err
+}
+
 func checkRejectLocal(c rejectCase) harness.Outcome {
 	if c.Prog == nil {
 		return harness.Outcome{Discard: "empty case"}
@@ -76,37 +99,43 @@ func checkRejectLocal(c rejectCase) harness.Outcome {
 			o.Excluded = append(o.Excluded, res.Known)
 			return o
 		}
+		if r.prog != nil && known("C04-SWITCH-UNTERMINATED") && hasOpenSwitch(m04.Reflect(r.prog)) {
+			// the injected error left a switch statement open at the end of the input
+			o.Excluded = append(o.Excluded, "C04-SWITCH-UNTERMINATED")
+			return o
+		}
 		return failf("(b) invalid ES5 text is accepted by parser.ParseFile")
 	}
 	if bad := checkErrors(text, r.err); bad != "" {
 		return failf("%s", bad)
 	}
 
-	vm := otto.New()
-	hits := 0
-	if err := vm.Set("hit", func(call otto.FunctionCall) otto.Value { hits++; return otto.Value{} }); err != nil {
-		return failf("harness: vm.Set: %v", err)
+	// One runtime serves consecutive cases: a rejected text must leave it exactly as it was, and
+	// that is what is verified after every case; the runtime is dropped at the first deviation, so
+	// the verdict of a case never depends on an earlier one.
+	env := theEnv
+	if env == nil {
+		var err error
+		if env, err = newRejectEnv(); err != nil {
+			return failf("harness: %v", err)
+		}
 	}
-	if err := vm.Set("src", text); err != nil {
-		return failf("harness: vm.Set: %v", err)
-	}
-	before, err := vm.Run(snapshotJS)
-	if err != nil {
-		return failf("harness: snapshot: %v", err)
-	}
+	theEnv = nil // only put back when the case left it untouched
+	env.src, env.hits = text, 0
+	vm := env.vm
 	routes := []struct {
 		name string
 		run  func() harness.RunResult
 	}{
 		{"Run(text)", func() harness.RunResult { return harness.Run(vm, text) }},
-		{"Run(\"eval(src)\")", func() harness.RunResult { return harness.Run(vm, "eval(src)") }},
-		{"Run(\"new Function(src)\")", func() harness.RunResult { return harness.Run(vm, "new Function(src)") }},
+		{"Run(\"eval(getsrc())\")", func() harness.RunResult { return harness.Run(vm, "eval(getsrc())") }},
+		{"Run(\"new Function(getsrc())\")", func() harness.RunResult { return harness.Run(vm, "new Function(getsrc())") }},
 		{"Compile(text)", func() harness.RunResult {
 			return harness.Guard(func() (otto.Value, error) { _, err := vm.Compile("", text); return otto.Value{}, err })
 		}},
 	}
-	for _, rt := range routes {
-		if res.ReturnOnly && rt.name == "Run(\"new Function(src)\")" {
+	for i, rt := range routes {
+		if res.ReturnOnly && i == 2 {
 			continue // a return statement is legal in a FunctionBody
 		}
 		rr := rt.run()
@@ -116,20 +145,24 @@ func checkRejectLocal(c rejectCase) harness.Outcome {
 		if rr.Err == nil {
 			return failf("(b) %s returned no error for a text parser.ParseFile rejects", rt.name)
 		}
-		if hits != 0 {
-			return failf("(b) %s returned %v but the host function was called %d times", rt.name, rr.Err, hits)
+		if env.hits != 0 {
+			return failf("(b) %s returned %v but the host function was called %d times", rt.name, rr.Err, env.hits)
 		}
-		after, err := vm.Run(snapshotJS)
-		if err != nil {
-			return failf("harness: snapshot: %v", err)
-		}
-		diff, err := vm.Call(compareJS, nil, before, after)
-		if err != nil {
-			return failf("harness: compare: %v", err)
-		}
-		if d := diff.String(); d != "" {
-			return failf("(b) %s returned %v but had an effect: %s", rt.name, rr.Err, d)
-		}
+	}
+	after, err := vm.Run(snapshotJS)
+	if err != nil {
+		return failf("harness: snapshot: %v", err)
+	}
+	diff, err := vm.Call(compareJS, nil, env.before, after)
+	if err != nil {
+		return failf("harness: compare: %v", err)
+	}
+	if d := diff.String(); d != "" {
+		return failf("(b) Run / eval / new Function / Compile each returned an error but the runtime was changed: %s", d)
+	}
+	env.uses++
+	if env.uses < 2000 {
+		theEnv = env
 	}
 	return o
 }
@@ -139,10 +172,11 @@ var rejectFacet = harness.Register(&harness.Facet[rejectCase]{
 	Rule: "rapid: minijs.GenProgram (valid, depth<=5) + one injector of 16 kinds (break / continue outside a loop or switch, continue to a label of a non-iteration statement, return outside a function, unknown label incl. across a function boundary, duplicate nested label, 29 invalid assignment / update / for-in targets, try without catch or finally and malformed catch, malformed or unterminated regexp / string / comment, reserved word as identifier, 100 underivable token sequences, a bracket deleted or a stray bracket inserted, an operator inserted behind an operator, constructs otto is known to accept) placed as a statement at a random statement-list position whose context (function depth, loop, switch, labels, first-in-list) makes it an error by construction, behind `hit(1); g1=1; var g2=hit(2); this.g3=[hit]; function g4(){} hit(3);`; canonical layout or random trivia without line terminators inside the injection; oracle: ParseFile error (positions inside the text), then on a fresh runtime Run(text), eval(text), new Function(text) and Compile(text) each return an error, the host function was never called and the sorted own property names, values (by identity), accessors and attributes of the global object are unchanged; every evaluated case is non-trivial (the error is preceded by >= 6 executable statements); distinct by JSON of the case",
 	Quick: 2500, Thorough: 30000,
 	Gen: func(t *rapid.T) rejectCase {
-		c := rejectCase{Prog: minijs.GenProgram(t, minijs.GenCfg{UnicodeIdent: true, MaxDepth: 5})}
-		c.Inj.Kind = m04.KindNames[rapid.IntRange(0, len(m04.KindNames)-1).Draw(t, "kind")]
-		c.Inj.Site = rapid.IntRange(0, 2000).Draw(t, "site")
-		c.Inj.Var = rapid.IntRange(0, 200).Draw(t, "var")
+		c := rejectCase{Prog: genPrograms(t, 5)}
+		c.Inj.Kind = m04.KindNames[uniform(t, "kind", len(m04.KindNames))]
+		c.Inj.Site = uniform(t, "site", 1<<16)
+		c.Inj.Var = uniform(t, "var", 1<<16)
+		c.Inj.Deep = rapid.Bool().Draw(t, "deep")
 		if rapid.Bool().Draw(t, "layout") {
 			c.Trivia = rapid.SliceOfN(rapid.Byte(), 1, 24).Draw(t, "trivia")
 		}
